@@ -67,12 +67,20 @@ static pm *rk_build(const rk_spec *s) {
     /* left column half [0,n1) holds r1 independent columns, right half r2 more (unit lower-triangular staircase: leading ones
        at distinct rows, zeros above). place 0: left pivots at the END of the left half (zero columns first), right pivots
        contiguous; place 1: both spread evenly (gaps everywhere); place 2: right pivots start after a gap of 3 */
-    int nr = s->r, nc = s->c, n1 = s->aux, r1 = s->b, r2 = s->J;
-    pm *A = pm_new(nr, nc);
-    pm *G1 = pm_pat(nr, r1 > 0 ? r1 : 1, (pat){P_PR, 0, 61}), *G2 = pm_pat(nr, r2 > 0 ? r2 : 1, (pat){P_PR, 0, 62});
-    for (int j = 0; j < r1; j++) { int col = s->dens == 1 ? (int)(((long)j * n1) / r1) : n1 - r1 + j; for (int i = 0; i < nr; i++) pm_set(A, i, col, i < j ? 0 : (pm_get(G1, i, j) | (i == j))); }
-    for (int j = 0; j < r2; j++) { int col = n1 + (s->dens == 1 ? (int)(((long)j * (nc - n1)) / r2) : s->dens == 2 ? ((r2 + 3 <= nc - n1) ? 3 + j : j) : j); for (int i = 0; i < nr; i++) pm_set(A, i, col, i < r1 + j ? 0 : (pm_get(G2, i, j) | (i == r1 + j))); }
-    pm_free(G1); pm_free(G2);
+    int nr = s->r, nc = s->c, n1 = s->aux, r1 = s->b, r2 = s->J, r = r1 + r2;
+    if (r == 0) return pm_new(nr, nc);
+    int *pc = vx_malloc(sizeof(int) * (size_t)r);
+    for (int j = 0; j < r1; j++) pc[j] = s->dens == 1 ? (int)(((long)j * n1) / r1) : n1 - r1 + j;
+    for (int j = 0; j < r2; j++) pc[r1 + j] = n1 + (s->dens == 1 ? (int)(((long)j * (nc - n1)) / r2) : s->dens == 2 ? ((r2 + 3 <= nc - n1) ? 3 + j : j) : j);
+    /* A = G * E: G (nr x r) has independent columns (unit lower-triangular staircase, dense below), E (r x nc) is a reduced
+       echelon form with pivots at pc[] and pseudo-random entries in the non-pivot columns to the right of each pivot, so that
+       non-pivot columns are non-zero combinations of earlier pivot columns (column rank profile = pc[]) */
+    pm *G = pm_pat(nr, r, (pat){P_PR, 0, 61});
+    for (int j = 0; j < r; j++) for (int i = 0; i <= j && i < nr; i++) pm_set(G, i, j, i == j);
+    pm *E = pm_pat(r, nc, (pat){P_PR, 0, 62});
+    for (int t = 0; t < r; t++) { for (int c = 0; c <= pc[t] && c < nc; c++) pm_set(E, t, c, c == pc[t]); for (int u2 = 0; u2 < r; u2++) if (u2 != t) pm_set(E, t, pc[u2], 0); }
+    pm *A = pm_mul(G, E);
+    pm_free(G); pm_free(E); vx_free(pc);
     return A; }
   }
   return NULL;
